@@ -197,6 +197,9 @@ void for_each_n(TaskSetT& tasks, Iter start, size_t n, F&& f, ForEachOptions opt
   ssize_t numThreads = std::min<ssize_t>(tasks.numPoolThreads() + options.wait, maxThreads);
   // Reduce threads used if they exceed work to be done.
   numThreads = std::min<ssize_t>(numThreads, n);
+  // A pool with zero threads and wait=false would give numThreads == 0 and a division by zero in
+  // staticChunkSize; schedule a single chunk instead (a zero-thread pool runs it inline).
+  numThreads = std::max<ssize_t>(1, numThreads);
 
   auto chunking = detail::staticChunkSize(n, numThreads);
   size_t chunkSize = chunking.ceilChunkSize;
